@@ -257,7 +257,11 @@ func repeating(symbols []pr.NamedString, value int) (string, bool) {
 	if len(symbols) == 0 {
 		return "", false
 	}
-	return symbol(symbols[(value-1)%len(symbols)]), true
+	index := (value - 1) % len(symbols)
+	if index < 0 { // the remainder has the sign of the dividend
+		index += len(symbols)
+	}
+	return symbol(symbols[index]), true
 }
 
 // Implement the algorithm for `type: non-repeating`.
@@ -272,7 +276,7 @@ func nonRepeating(symbols []pr.NamedString, firstValue, value int) (string, bool
 
 // Implement the algorithm for `type: symbolic`.
 func symbolic(symbols []pr.NamedString, value int) (string, bool) {
-	if len(symbols) == 0 {
+	if len(symbols) == 0 || value < 1 {
 		return "", false
 	}
 	L := len(symbols)
@@ -284,7 +288,7 @@ func symbolic(symbols []pr.NamedString, value int) (string, bool) {
 // Implement the algorithm for `type: alphabetic`.
 func alphabetic(symbols []pr.NamedString, value int) (string, bool) {
 	L := len(symbols)
-	if L < 2 {
+	if L < 2 || value < 1 {
 		return "", false
 	}
 	reversedParts := []string{}
@@ -299,11 +303,11 @@ func alphabetic(symbols []pr.NamedString, value int) (string, bool) {
 
 // Implement the algorithm for `type: numeric`.
 func numeric(symbols []pr.NamedString, value int) (string, bool) {
-	if value == 0 {
-		return symbol(symbols[0]), true
-	}
 	if len(symbols) < 2 {
 		return "", false
+	}
+	if value == 0 {
+		return symbol(symbols[0]), true
 	}
 	var reversedParts []string
 	value = utils.Abs(value)
